@@ -30,15 +30,15 @@ func init() {
 }
 
 type tStep struct {
-	kind string        // T catastrophic timed, Q quick timed, I idle, S stop clock, P parallel timed, G expect clock goroutine gone
+	kind string        // T catastrophic timed, Q quick timed, I idle, S stop clock, P parallel timed, M parallel timed with one long deadline, N parallel quick timed, R quick timed overtaken between its two clock reads, G expect clock goroutine gone
 	d    time.Duration // timeout or idle
 	k    int           // P: number of concurrent matches
 }
 
 func (s tStep) String() string {
 	switch s.kind {
-	case "P":
-		return fmt.Sprintf("P(%d)", s.k)
+	case "P", "M", "N", "R":
+		return fmt.Sprintf("%s(%d)", s.kind, s.k)
 	case "S", "G":
 		return s.kind
 	}
@@ -53,6 +53,9 @@ var (
 	lateSlack    = 40 * time.Millisecond
 	earlySlack   = 5 * time.Millisecond
 	overshootMax = 250 * time.Millisecond
+	// M steps: deadlines more than the clock's 1 s slop apart
+	mixedLong  = 1500 * time.Millisecond
+	mixedShort = 10 * time.Millisecond
 )
 
 func clockGoroutineAlive() bool {
@@ -137,6 +140,10 @@ func runTimedHistory(h []tStep, tol time.Duration) (obs []stepObs, snapshots []s
 			note(s.d)
 		case "P":
 			note(time.Duration(20+30*(s.k-1)) * time.Millisecond)
+		case "M":
+			note(mixedLong + 250*time.Millisecond)
+		case "N", "R":
+			note(s.d + 250*time.Millisecond)
 		}
 		switch s.kind {
 		case "T":
@@ -211,6 +218,171 @@ func runTimedHistory(h []tStep, tol time.Duration) (obs []stepObs, snapshots []s
 					o.suspect, o.missedBy = x, missed[i]
 				}
 			}
+		case "N":
+			// k quick matches with a generous timeout compute their deadlines together: all of them
+			// have looked at the (possibly stale) clock before the first one refreshes and restarts it
+			var arrivals atomic.Int32
+			all := make(chan struct{})
+			k := int32(s.k)
+			regexp2.VerifSetPointHook(func(id int) {
+				if id != regexp2.VerifPtMakeDeadline {
+					return
+				}
+				n := arrivals.Add(1)
+				if n > k {
+					return
+				}
+				if n == k {
+					close(all)
+				}
+				select {
+				case <-all:
+				case <-time.After(100 * time.Millisecond):
+				}
+				time.Sleep(time.Duration(n-1) * 300 * time.Microsecond)
+			})
+			var wg sync.WaitGroup
+			res := make([]string, s.k)
+			t := time.Now()
+			for i := 0; i < s.k; i++ {
+				wg.Add(1)
+				go func(i int) {
+					defer wg.Done()
+					if _, err := timedMatch(s.d, quickInput); err != nil {
+						res[i] = fmt.Sprintf("concurrent quick match %d with a generous timeout (%v) reported: %v", i, s.d, err)
+					}
+				}(i)
+			}
+			wg.Wait()
+			regexp2.VerifSetPointHook(nil)
+			o.latency = time.Since(t)
+			o.err = fmt.Sprintf("arrivals at the deadline point: %d", arrivals.Load())
+			for _, x := range res {
+				if x != "" && o.suspect == "" {
+					o.suspect = x
+				}
+			}
+		case "R":
+			// one quick match is held between its two lock-free reads of the clock while k-1 others
+			// run to completion (restarting the clock if it was stopped); it must not report a timeout
+			var arrivals atomic.Int32
+			first, othersDone := make(chan struct{}), make(chan struct{})
+			regexp2.VerifSetPointHook(func(id int) {
+				if id != regexp2.VerifPtDeadlineRead {
+					return
+				}
+				if arrivals.Add(1) == 1 {
+					close(first)
+					select {
+					case <-othersDone:
+					case <-time.After(500 * time.Millisecond):
+					}
+				}
+			})
+			res := make([]string, s.k)
+			run := func(i int) {
+				if _, err := timedMatch(s.d, quickInput); err != nil {
+					res[i] = fmt.Sprintf("concurrent quick match %d with a generous timeout (%v) reported: %v", i, s.d, err)
+				}
+			}
+			t := time.Now()
+			held := make(chan struct{})
+			go func() { run(0); close(held) }()
+			select {
+			case <-first:
+			case <-time.After(200 * time.Millisecond):
+			}
+			var wg sync.WaitGroup
+			for i := 1; i < s.k; i++ {
+				wg.Add(1)
+				go func(i int) { defer wg.Done(); run(i) }(i)
+			}
+			wg.Wait()
+			close(othersDone)
+			<-held
+			regexp2.VerifSetPointHook(nil)
+			o.latency = time.Since(t)
+			o.err = fmt.Sprintf("arrivals at the clock-read point: %d", arrivals.Load())
+			for _, x := range res {
+				if x != "" && o.suspect == "" {
+					o.suspect = x
+				}
+			}
+		case "M":
+			// one match with a long timeout and k-1 with a short one enter the deadline computation
+			// together: the long one is held at the hook point between the unlocked look at the
+			// clock's end and the locked extension until the others are there too, goes first, and
+			// the short ones extend the clock after it. Every deadline must still be honoured.
+			var arrivals atomic.Int32
+			var longWait atomic.Int64
+			first, all := make(chan struct{}), make(chan struct{})
+			k := int32(s.k)
+			regexp2.VerifSetPointHook(func(id int) {
+				if id != regexp2.VerifPtMakeDeadline {
+					return
+				}
+				n := arrivals.Add(1)
+				if n > k {
+					return
+				}
+				t := time.Now()
+				if n == 1 {
+					close(first)
+				}
+				if n == k {
+					close(all)
+				}
+				select {
+				case <-all:
+				case <-time.After(200 * time.Millisecond):
+				}
+				if n > 1 {
+					time.Sleep(2 * time.Millisecond)
+				} else {
+					longWait.Store(int64(time.Since(t)))
+				}
+			})
+			var wg sync.WaitGroup
+			res := make([]string, s.k)
+			missed := make([]time.Duration, s.k)
+			t := time.Now()
+			run := func(i int, d time.Duration) {
+				defer wg.Done()
+				lat, err := timedMatch(d, catInput)
+				extra := time.Duration(s.k)*5*time.Millisecond + 10*time.Millisecond
+				if i == 0 {
+					extra += time.Duration(longWait.Load())
+				}
+				switch {
+				case err == nil || !mon.IsTimeout(err):
+					res[i] = fmt.Sprintf("concurrent match %d (timeout %v) returned %v", i, d, err)
+				case lat < d-earlySlack-tol:
+					res[i] = fmt.Sprintf("concurrent match %d timed out after %v, earlier than %v", i, lat, d)
+					missed[i] = d - earlySlack - lat
+				case lat > d+lateSlack+tol+extra:
+					res[i] = fmt.Sprintf("concurrent match %d timed out only after %v for %v", i, lat, d)
+					missed[i] = lat - d - lateSlack - extra
+				}
+			}
+			wg.Add(1)
+			go run(0, mixedLong)
+			select {
+			case <-first:
+			case <-time.After(200 * time.Millisecond):
+			}
+			for i := 1; i < s.k; i++ {
+				wg.Add(1)
+				go run(i, mixedShort)
+			}
+			wg.Wait()
+			regexp2.VerifSetPointHook(nil)
+			o.latency = time.Since(t)
+			o.err = fmt.Sprintf("arrivals at the deadline point: %d", arrivals.Load())
+			for i, x := range res {
+				if x != "" && (o.suspect == "" || (missed[i] == 0 && o.missedBy != 0)) {
+					o.suspect, o.missedBy = x, missed[i]
+				}
+			}
 		}
 		cur, end, running, _ := regexp2.VerifClockSnapshot()
 		snapshots = append(snapshots, fmt.Sprintf("%s: current=%d clockEnd=%d running=%v", s, cur, end, running))
@@ -226,11 +398,27 @@ func fixedHistories() [][]tStep {
 	S := tStep{kind: "S"}
 	G := tStep{kind: "G"}
 	P := func(k int) tStep { return tStep{kind: "P", k: k} }
+	M := func(k int) tStep { return tStep{kind: "M", k: k, d: mixedLong} }
+	N := func(k, ms int) tStep { return tStep{kind: "N", k: k, d: time.Duration(ms) * time.Millisecond} }
+	R := func(k, ms int) tStep { return tStep{kind: "R", k: k, d: time.Duration(ms) * time.Millisecond} }
 	return [][]tStep{
-		{T(20), T(50), T(120)},              // back to back
-		{T(20), I(5), T(20), Q(50)},         // short idle
-		{T(20), I(1300), G, T(20), Q(5000)}, // idle longer than timeout + slop: clock gone, restarted on demand
-		{Q(50), I(1300), G, Q(50), T(50)},   // quick match after the clock has stopped with a stale time value
+		{R(2, 50), T(20)},
+		{T(20), I(1300), G, R(2, 50), T(20)},
+		{T(50), S, I(300), R(3, 5000), T(20)},
+		{T(120), R(2, 50), Q(50)},
+		{N(3, 50), T(20)},                           // quick matches together on a clock that never ran
+		{T(20), I(1300), G, N(3, 50), T(20)},        // ... on a clock that ran out (stale time value)
+		{Q(50), I(2500), G, N(2, 5000), Q(50)},      //
+		{T(20), S, I(300), N(4, 50), T(50)},         // ... on a stopped clock
+		{T(120), N(3, 50), I(300), N(2, 50), Q(50)}, // ... on a running clock
+		{M(3), Q(50)},                               // deadlines 10 ms and 1.5 s handed out together on a clock that never ran
+		{T(20), S, M(4), T(20)},                     // ... on a stopped clock
+		{T(20), I(1300), G, M(2), Q(50)},            // ... on a clock that ran out
+		{T(120), M(3)},                              // ... on a running clock
+		{T(20), T(50), T(120)},                      // back to back
+		{T(20), I(5), T(20), Q(50)},                 // short idle
+		{T(20), I(1300), G, T(20), Q(5000)},         // idle longer than timeout + slop: clock gone, restarted on demand
+		{Q(50), I(1300), G, Q(50), T(50)},           // quick match after the clock has stopped with a stale time value
 		{T(50), I(2500), G, Q(50), I(300), T(20)},
 		{T(20), S, T(20), Q(50)},     // explicit stop, then restart
 		{S, S, T(50)},                // stop with nothing running
@@ -247,9 +435,9 @@ func fixedHistories() [][]tStep {
 func randomHistory(rng *rand.Rand) []tStep {
 	var h []tStep
 	n := 4 + rng.Intn(5)
-	longIdle := false
+	longIdle, mixed := false, false
 	for i := 0; i < n; i++ {
-		switch rng.Intn(10) {
+		switch rng.Intn(12) {
 		case 0, 1, 2:
 			h = append(h, tStep{kind: "T", d: []time.Duration{20, 50, 120}[rng.Intn(3)] * time.Millisecond})
 		case 3, 4:
@@ -264,7 +452,16 @@ func randomHistory(rng *rand.Rand) []tStep {
 		case 8:
 			h = append(h, tStep{kind: "S"})
 		case 9:
-			h = append(h, tStep{kind: "P", k: 2 + rng.Intn(5)})
+			if rng.Intn(3) == 0 && !mixed {
+				h = append(h, tStep{kind: "M", k: 2 + rng.Intn(3), d: mixedLong})
+				mixed = true
+			} else {
+				h = append(h, tStep{kind: "P", k: 2 + rng.Intn(5)})
+			}
+		case 10:
+			h = append(h, tStep{kind: "R", k: 2 + rng.Intn(2), d: []time.Duration{50, 5000}[rng.Intn(2)] * time.Millisecond})
+		case 11:
+			h = append(h, tStep{kind: "N", k: 2 + rng.Intn(4), d: []time.Duration{50, 5000}[rng.Intn(2)] * time.Millisecond})
 		}
 	}
 	h = append(h, tStep{kind: "T", d: 20 * time.Millisecond})
@@ -463,7 +660,7 @@ func runC14(r *core.Run) int {
 	r.Workers = 1
 	r.Extras["bounds"] = map[string]any{"histories": len(histories), "clock_period": clockPeriod.String(), "window": fmt.Sprintf("[d-%v, d+%v] (+5ms per concurrent match)", earlySlack, lateSlack), "timeouts": "20/50/120 ms", "idles": "5 ms, 300 ms, 1.3 s, 2.5 s", "isolation": "every history runs in its own child process under a watchdog"}
 	return r.Finish(
-		"histories of timed catastrophic matches T(d) (must fail with a timeout inside [d-5ms, d+40ms]), timed quick matches Q(d) (must not report a timeout), idle gaps shorter and longer than timeout + the clock's 1 s slop (after the long ones the clock goroutine must be gone and timeouts must still fire), StopTimeoutClock calls (must return and leave no clock goroutine) and concurrent timed matches with different deadlines, with a 1 ms clock period; each history runs in a fresh child process under a watchdog (a match whose timeout never fires cannot hang the check); 12 hand-ordered histories covering every predecessor/successor pair that matters plus seeded random ones; evaluation = one step; non-trivial = distinct history",
+		"histories of timed catastrophic matches T(d) (must fail with a timeout inside [d-5ms, d+40ms]), timed quick matches Q(d) (must not report a timeout), idle gaps shorter and longer than timeout + the clock's 1 s slop (after the long ones the clock goroutine must be gone and timeouts must still fire), StopTimeoutClock calls (must return and leave no clock goroutine) concurrent timed matches with different deadlines P(k), N(k): k quick matches with a generous timeout whose deadline computations are held at the hook point until all have looked at the clock (none may report a timeout), R(k): a quick match held between its two lock-free clock reads while k-1 others run to completion, and M(k): one 1.5 s and k-1 10 ms deadlines computed together (the hook point between the unlocked look at the clock's end and its locked extension holds the long one until the others arrive, then lets it go first) on clocks that never ran, were stopped, ran out or are running, with a 1 ms clock period; each history runs in a fresh child process under a watchdog (a match whose timeout never fires cannot hang the check); 27 hand-ordered histories covering every predecessor/successor pair that matters plus seeded random ones; evaluation = one step; non-trivial = distinct history",
 		[]string{"wall-clock verdicts: a miss is a suspect, re-executed 3 times in fresh processes with scheduler overshoot measured; a timing miss counts only if it exceeds twice the overshoot measured in the same run (+5 ms); violation only if reproduced 3/3, otherwise inconclusive", "millisecond-level accuracy is not claimed"},
 		map[string]int64{"evaluations": 40, "distinct_nontrivial": 10, "step_T": 10, "step_G": 3, "step_S": 3})
 }
